@@ -159,7 +159,14 @@ def _update_view(prefix, links, leaf="job"):
             os.rmdir(p)
     for path in chain(new, to_update):
         dst = os.path.join(prefix, path)
-        src = os.path.relpath(links[path], os.path.split(dst)[0])
+        # The link is relative to the directory that holds it. Resolve symbolic
+        # links in that directory and in the job's workspace first: a relative
+        # path computed from a path through a symbolic link leads elsewhere.
+        job_path = os.path.join(
+            os.path.realpath(os.path.dirname(links[path])),
+            os.path.basename(links[path]),
+        )
+        src = os.path.relpath(job_path, os.path.realpath(os.path.split(dst)[0]))
         _make_link(src, dst)
 
 
